@@ -24,6 +24,7 @@ type cell struct {
 	Obs     string `json:"observer"` // "--" "L-" "-I" "LI" (Local, Internal) or "api"
 	Cache   bool   `json:"cache"`
 	Delay   bool   `json:"delayed_writes,omitempty"` // observer created with DelayCachedWrites=<db>
+	Opt     string `json:"observer_options,omitempty"` // Always* options of the observer: S, C, SC, rel, abs, SC+rel+abs
 	Path    string `json:"path"`
 }
 
@@ -32,10 +33,35 @@ func (c cell) sig() string {
 }
 
 func (c cell) delayTag() string {
+	t := ""
 	if c.Delay {
-		return "+delayed-writes"
+		t = "+delayed-writes"
 	}
-	return ""
+	if c.Opt != "" {
+		t += "+always:" + c.Opt
+	}
+	return t
+}
+
+// observerOptions are the Always* option sets a non-privileged observer may carry.
+// They change what the observer writes, never what it may access.
+var observerOptions = []string{"S", "C", "SC", "rel", "abs", "SC+rel+abs"}
+
+func applyObserverOptions(o *database.Options, opt string) {
+	for _, p := range strings.Split(opt, "+") {
+		switch p {
+		case "S":
+			o.AlwaysMakeSecret = true
+		case "C":
+			o.AlwaysMakeCrownjewel = true
+		case "SC":
+			o.AlwaysMakeSecret, o.AlwaysMakeCrownjewel = true, true
+		case "rel":
+			o.AlwaysSetRelativateExpiry = 2 * farFuture
+		case "abs":
+			o.AlwaysSetAbsoluteExpiry = time.Now().Unix() + 2*farFuture
+		}
+	}
 }
 
 // coord is the cell without the sampled dimensions (how, kind): the coordinates of
@@ -110,6 +136,27 @@ func coordsFor(sp spec) []cell {
 	}
 	for _, p := range apiPaths(sp.Backend) {
 		out = append(out, cell{Part: "table", Backend: sp.Backend, Shadow: sp.Shadow, F: f, Obs: "api", Path: p})
+	}
+	// Non-privileged observers that carry Always* options, on every interface path.
+	// Quick: the observer without any privilege gets every option set, the two
+	// half-privileged ones rotate through the option sets, the cache setting
+	// alternates; thorough: everything.
+	n := 0
+	for _, obs := range []string{"--", "L-", "-I"} {
+		for pi, p := range ifacePaths(sp.Backend, f, obs) {
+			for oi, opt := range observerOptions {
+				if !sp.thorough() && obs != "--" && oi != (pi+f)%len(observerOptions) {
+					continue
+				}
+				for ci, cache := range []bool{false, true} {
+					if !sp.thorough() && ci != n%2 {
+						continue
+					}
+					out = append(out, cell{Part: "table", Backend: sp.Backend, Shadow: sp.Shadow, F: f, Obs: obs, Cache: cache, Opt: opt, Path: p})
+				}
+				n++
+			}
+		}
 	}
 	// Non-privileged interfaces created with a read cache and DelayCachedWrites (the
 	// documentation reserves delayed writes for Local+Internal interfaces, the
@@ -259,6 +306,10 @@ func (w *world) runCell(c cell) {
 	w.b.Seen("flagsets", flagNames[c.F])
 	w.b.Seen("flag_set_by", c.H)
 	w.b.Seen("record_kinds", c.K)
+	if c.Opt != "" {
+		w.b.Seen("observer_always_options", c.Opt)
+		w.b.Count("cells_with_observer_always_options", 1)
+	}
 	id := w.nextCell
 	w.nextCell++
 	x := &exec{w: w, c: c}
@@ -317,6 +368,7 @@ func (x *exec) newObserver() *database.Interface {
 		opts.CacheSize = delayCacheSize
 		opts.DelayCachedWrites = x.w.db
 	}
+	applyObserverOptions(opts, x.c.Opt)
 	return database.NewInterface(opts)
 }
 
@@ -401,15 +453,27 @@ func pathSig(path, backend string) string {
 func (x *exec) staleCache() bool { return x.c.Part == "reflag" && x.c.Cache && x.c.Path != "query" }
 
 // vsig builds a violation signature: C03:<oracle>:<path>[:<storage>][:stale-cache]:<clause>.
-func vsig(kind, path, backend string, stale bool, cl string) string {
+func vsig(kind, path, backend string, class string, cl string) string {
 	s := prop + ":" + kind + ":" + pathSig(path, backend)
-	if stale {
-		s += ":stale-cache"
+	if class != "" {
+		s += ":" + class
 	}
 	if cl != "" {
 		s += ":" + cl
 	}
 	return s
+}
+
+// class is the precondition class of a signature: the observer may hold an outdated
+// cached copy, or the observer carries Always* options.
+func (x *exec) class() string {
+	switch {
+	case x.staleCache():
+		return "stale-cache"
+	case x.c.Opt != "":
+		return "always-options"
+	}
+	return ""
 }
 
 func (x *exec) vsig(kind string, withClause bool) string {
@@ -418,7 +482,7 @@ func (x *exec) vsig(kind string, withClause bool) string {
 		// (one defect class whatever the flag: the stale-cache signatures carry no clause)
 		cl = clause(x.l, x.i, x.c.F)
 	}
-	return vsig(kind, x.pathName(), x.c.Backend, x.staleCache(), cl)
+	return vsig(kind, x.pathName(), x.c.Backend, x.class(), cl)
 }
 
 // hand judges what was handed to the observer: no record object / key of a refused
@@ -463,12 +527,12 @@ func bytesJoin(bs [][]byte) []byte {
 }
 
 func (x *exec) scan(texts ...[]byte) {
-	x.w.scanFor(x.l, x.i, x.pathName(), x.staleCache(), func(t string) bool { return x.own[t] }, func() map[string]any { return x.detail(nil) }, texts...)
+	x.w.scanFor(x.l, x.i, x.pathName(), x.class(), func(t string) bool { return x.own[t] }, func() map[string]any { return x.detail(nil) }, texts...)
 }
 
 // scanFor is the token scan: every token found must belong to a record version the
 // observer is allowed to see.
-func (w *world) scanFor(l, i bool, path string, stale bool, skip func(tok string) bool, detail func() map[string]any, texts ...[]byte) {
+func (w *world) scanFor(l, i bool, path string, class string, skip func(tok string) bool, detail func() map[string]any, texts ...[]byte) {
 	for _, t := range texts {
 		w.b.Count("byte_strings_scanned", 1)
 		for _, m := range tokRe.FindAll(t, -1) {
@@ -486,7 +550,7 @@ func (w *world) scanFor(l, i bool, path string, stale bool, skip func(tok string
 					s = s[:1500]
 				}
 				d["byte_string"] = s
-				w.b.Violation(vsig("token-leak", path, w.backend, stale, clause(l, i, v.Flags)),
+				w.b.Violation(vsig("token-leak", path, w.backend, class, clause(l, i, v.Flags)),
 					fmt.Sprintf("payload token of a %s record reached an observer with Local=%v Internal=%v through %s", flagNames[v.Flags], l, i, path), d)
 			}
 		}
@@ -903,7 +967,7 @@ func (w *world) bulkCheck() {
 				if k, isRec := apiRecordKey(m, id); isRec {
 					v.keys[k] = true
 				}
-				w.scanFor(false, false, "bulk-"+v.name+"-query:"+w.backend, false, nil, func() map[string]any {
+				w.scanFor(false, false, "bulk-"+v.name+"-query:"+w.backend, "", nil, func() map[string]any {
 					return map[string]any{"child": w.sp, "observer": v.name, "message": clip(string(m))}
 				}, m)
 				if isType(id, "error")(m) {
@@ -920,7 +984,7 @@ func (w *world) bulkCheck() {
 		recs, qerr := drainQuery(it, it.Next)
 		for _, r := range recs {
 			v.keys[r.Key] = true
-			w.scanFor(v.l, v.i, "bulk-query:"+w.backend, false, nil, func() map[string]any {
+			w.scanFor(v.l, v.i, "bulk-query:"+w.backend, "", nil, func() map[string]any {
 				return map[string]any{"child": w.sp, "observer": v.name, "key": r.Key}
 			}, r.Bytes...)
 		}
